@@ -26,8 +26,9 @@ TOMB     == "TOMB"
 VARIABLES l,        \* next trace line to explain
           clog,     \* successful commits in order: <<[ver, w]>>, w: [key -> value token | TOMB]
           tx,       \* active transactions: [t -> [rts, upd, reads, w]]
-          maxrts    \* greatest read timestamp handed out
-vars == <<l, clog, tx, maxrts>>
+          maxrts,   \* greatest read timestamp handed out
+          cc        \* free-running phase: the Commit calls that have returned, {[ok, w]}
+vars == <<l, clog, tx, maxrts, cc>>
 
 EmptyF == [x \in {} |-> TOMB]
 Upd(f, k, v) == [x \in (DOMAIN f) \cup {k} |-> IF x = k THEN v ELSE f[x]]
@@ -42,14 +43,14 @@ Visible(k, ts) ==
     ELSE LET i == CHOOSE i \in Writers(k, ts) : \A j \in Writers(k, ts) : clog[j].ver <= clog[i].ver
          IN IF clog[i].w[k] = TOMB THEN NOTFOUND ELSE clog[i].w[k]
 
-Init == l = 1 /\ clog = <<>> /\ tx = EmptyF /\ maxrts = 0
+Init == l = 1 /\ clog = <<>> /\ tx = EmptyF /\ maxrts = 0 /\ cc = {}
 
 ev == Trace[l]
 Expect(got, want) == got = want \/ (got # want /\ PrintT(<<"MISMATCH", l, want>>))
 Require(cond, msg) == cond \/ (~cond /\ PrintT(<<"MISMATCH", l, msg>>))
 IsEvent(name) == l <= Len(Trace) /\ ev.e = name /\ l' = l + 1
 
-Reset == IsEvent("Reset") /\ clog' = <<>> /\ tx' = EmptyF /\ maxrts' = 0
+Reset == IsEvent("Reset") /\ clog' = <<>> /\ tx' = EmptyF /\ maxrts' = 0 /\ cc' = {}
 
 Begin == /\ IsEvent("Begin") /\ ev.t \notin DOMAIN tx
          /\ Require(ev.rts >= MaxVer, "read timestamp >= every committed version")
@@ -119,7 +120,32 @@ Dump == /\ IsEvent("Dump")
         /\ Require(Newest \subseteq Stored, "the newest committed version of every key is stored")
         /\ UNCHANGED <<clog, tx, maxrts>>
 
-Next == Reset \/ Begin \/ Get \/ Scan \/ Set \/ Del \/ Commit \/ Discard \/ Maint \/ Dump
+(* Free-running phase (several goroutines commit at the same moment, possibly with an injected I/O     *)
+(* failure): only call/return is known, so every commit is judged on its own against the store.        *)
+(* CCommit: one Commit / CommitWith has returned (blind writes with unique value tokens).              *)
+(* CDump:   every stored version.  C04: an acknowledged commit has ALL its writes stored under ONE     *)
+(* version, above every version committed before the phase and different from the other commits';      *)
+(* a commit that reported an error has NONE of its writes stored.                                      *)
+CCommit == /\ IsEvent("CCommit")
+           /\ cc' = cc \cup {[t |-> ev.t, ok |-> (ev.r = "ok"),
+                               w |-> {[k |-> ev.w[i].k, v |-> ev.w[i].v] : i \in 1..Len(ev.w)}]}
+VersOf(c) == {e.ver : e \in {x \in Stored : \E y \in c.w : y.k = x.k /\ y.v = x.v}}
+CDump == /\ IsEvent("CDump")
+         /\ \A c \in cc :
+               IF c.ok
+               THEN /\ Require(\A y \in c.w : \E x \in Stored : x.k = y.k /\ x.v = y.v,
+                               "every write of an acknowledged commit is stored")
+                    /\ Require(Cardinality(VersOf(c)) <= 1 /\ \A v \in VersOf(c) : v > MaxVer,
+                               "one version per commit, above every earlier commit version")
+                    /\ Require(\A d \in cc : (d.ok /\ d # c) => VersOf(d) \cap VersOf(c) = {},
+                               "two commits never share a version")
+               ELSE Require(VersOf(c) = {}, "no write of a commit that reported an error is stored")
+         /\ cc' = {}
+
+Sequential == Begin \/ Get \/ Scan \/ Set \/ Del \/ Commit \/ Discard \/ Maint \/ Dump
+Next == \/ Reset
+        \/ Sequential /\ UNCHANGED cc
+        \/ (CCommit \/ CDump) /\ UNCHANGED <<clog, tx, maxrts>>
 Spec == Init /\ [][Next]_vars
 
 TraceAccepted ==
